@@ -3081,8 +3081,20 @@ impl Translator {
                     self.collect_captures_expr(&arg.val, captures, mono);
                 }
             }
-            ExprKind::AnonymousFunction(..)
-            | ExprKind::MemberAccessLeadingDot(..)
+            ExprKind::AnonymousFunction(args, _, body) => {
+                // whatever a nested lambda captures has to be captured by the enclosing
+                // function as well, so that it is available when the nested lambda is created
+                let func_ty = self.statics.solution_of_node(expr.node()).unwrap();
+                let overload_ty = if !func_ty.is_overloaded() {
+                    None
+                } else {
+                    Some(func_ty.subst(mono))
+                };
+                let (_, inner_captures, _) =
+                    self.calculate_args_captures_locals(&overload_ty, args, body, mono);
+                captures.extend(inner_captures);
+            }
+            ExprKind::MemberAccessLeadingDot(..)
             | ExprKind::Nil
             | ExprKind::Int(..)
             | ExprKind::Float(..)
